@@ -1878,6 +1878,33 @@ def fam_C06(rng, tier):
                     recv_max=lambda r: r.choice([1, 1, 2, 3]),
                     weights=dict(pub0=1, pub1=3, pub2=7, sub=0, unsub=0, ping=1, ack=9, inbound=0, pubrel=0, stream=0),
                     allow_poll=True, batch=0.1)
+    # two exchanges open whose identifiers differ only above the low byte / by a multiple of 256 that lands on the packet-type
+    # bits of a packed key (round 10, C06-j: key = type << 16 | id << 8): an old QoS 2 publish awaiting PUBREC / PUBCOMP and
+    # old QoS 1 publishes stay open while the counter moves on by 256, 512, 1024 ...; every acknowledgement must complete
+    # its own publish, with its own reason
+    for dist in ([256, 1024] if tier == 'quick' else [256, 512, 768, 1024, 2048, 4096, 16384]):
+        s = Sess(f'c06-keys-{dist}')
+        s.connect()
+        oa, pa = s.publish(2)                 # awaits PUBREC
+        ob, pb = s.publish(1)                 # awaits PUBACK
+        oc, pc = s.publish(2)
+        s.feed(m.ack('pubrec', pc))           # awaits PUBCOMP
+        while s.pid < pa + dist:
+            o, p_ = s.publish(1)
+            s.feed(m.ack('puback', p_))
+            s.live_ops.pop(o, None)
+        na, qa = s.publish(1)                 # qa = pa + dist
+        nb, qb = s.publish(1)                 # qb = pb + dist
+        nc, qc = s.publish(2)                 # qc = pc + dist
+        s.feed(m.ack('puback', qa, 0x87))
+        s.feed(m.ack('puback', qb, 0x10))
+        s.feed(m.ack('pubrec', qc))
+        s.feed(m.ack('pubcomp', qc, 0x92))
+        s.feed(m.ack('pubrec', pa))
+        s.feed(m.ack('pubcomp', pa))
+        s.feed(m.ack('puback', pb))
+        s.feed(m.ack('pubcomp', pc))
+        out.append(s.script())
     return out
 
 
@@ -2285,6 +2312,23 @@ def fam_C11(rng, tier):
             o, p = s.unsubscribe([b'a'], 0)
             s.feed(m.unsuback(p, [0]))
         s.live_ops.pop(o, None)
+    s.feed(m.ack('puback', p0))
+    out.append(s.script())
+    # the same window filled with what takes NO identifier (QoS 0 publishes, pings): 65 534 of them while one operation is
+    # outstanding, then a second identifier-taking operation (round 10, C11-j: every publish() consumed a counter value)
+    s = Sess('c11-qos0-fill')
+    s.connect()
+    s.add('CLONE h0 h1')
+    o0, p0 = s.publish(1)
+    for i in range(65534):
+        if i % 64 == 63:
+            o = s.ping(1)
+            s.feed(m.pingresp())
+        else:
+            o, p = s.publish(0, i % 2)
+        s.live_ops.pop(o if isinstance(o, int) else o[0], None)
+    o1, p1 = s.publish(1, 1)
+    s.feed(m.ack('puback', p1))
     s.feed(m.ack('puback', p0))
     out.append(s.script())
     # more than 16 384 subscribe() calls on one client: the subscription identifier crosses every width of its Variable Byte
@@ -2884,6 +2928,36 @@ def fam_C15(rng, tier):
         for _ in range(R + 1):
             s.publish(1)
         out.append(s.script())
+    # a request cancelled while it waits in the queue, which the context then REFUSES locally (no slot free / too large for the
+    # broker): the refusal has nobody to go to (round 10, C15-j: an undeliverable refusal ended run())
+    for why in ['quota', 'size-pub', 'size-sub', 'size-unsub']:      # (a cancelled oversized DISCONNECT: the oracles cannot tell it was refused — no DONE line —, DESIGN.md false alarm (9))
+        for q in ([1, 2] if why == 'quota' else [0, 1]) if why in ('quota', 'size-pub') else [None]:
+            s = Sess(f'c15-refused-cancel-{why}-{q}')
+            s.connect(connack_ps=[(33, 1)] if why == 'quota' else [(39, 30)])
+            s.add('CLONE h0 h1')
+            other, opid = s.publish(1, 1) if why == 'quota' else s.publish(1, fields=[('p', b'x')])
+            s.add('HOLD ctx')
+            big = [('p', b'y' * 40)]
+            if why == 'quota':
+                op, pid = s.publish(q, fields=[('p', b'gone')])
+            elif why == 'size-pub':
+                op, pid = s.publish(q, fields=big)
+            elif why == 'size-sub':
+                op, pid, sid = s.subscribe(((b'f' * 40, '2000'),))
+            elif why == 'size-unsub':
+                op, pid = s.unsubscribe([b'f' * 40])
+            else:
+                op = s.disconnect([('rs', b'r' * 40)])
+            op = op if isinstance(op, int) else op[0]
+            s.add(f'DROP op{op}')
+            s.live_ops.pop(op, None)
+            s.add('RELEASE ctx')
+            s.feed(m.ack('puback', opid))
+            o3, p3 = s.publish(1, 1)
+            s.feed(m.ack('puback', p3))
+            pg = s.ping(1)
+            s.feed(m.pingresp())
+            out.append(s.script())
     for kind in ['pub0', 'pub1', 'pub2a', 'pub2b', 'pub2c', 'sub', 'unsub', 'ping', 'disc']:
         for point in ['fresh', 'queued', 'waiting']:
             s = Sess(f'c15-{kind}-{point}-{i}')
